@@ -24,6 +24,8 @@ type VG struct {
 	NoNegFlat bool
 	// ValidUTF8Keys: string map keys are valid UTF-8 and distinct after JSON escaping (C13)
 	ValidUTF8 bool
+	// EmptyNumber: json.Number values may be the empty string (C05's codec laws only: no JSON text holds it)
+	EmptyNumber bool
 	// Budget bounds the total number of containers/elements generated for one value
 	Budget int
 	// NoSNaN: float32 NaNs stay quiet (protobuf-go carries a float32 as a float64, which quiets them)
@@ -405,6 +407,9 @@ func (g *VG) JSON(depth int, top int) any {
 		return g.str()
 	case 6:
 		// valid JSON number literals, including ones no float64 or int64 can hold
+		if g.EmptyNumber && g.R.IntN(6) == 0 {
+			return json.Number("") // the zero value of the type: no literal at all
+		}
 		return json.Number([]string{"0", "-0", "1", "12345678901234567890123", "1.5e300", "-3.25", "1E-9", "1e400", "-2.5E+309", "1e-400", "9007199254740993",
 			"1" + strings.Repeat("0", 320), "-" + strings.Repeat("9", 40) + "." + strings.Repeat("9", 40), "0.1e+1", "18446744073709551616"}[g.R.IntN(15)])
 	case 7:
